@@ -329,6 +329,18 @@ fn case_variant(t: &mut Tape, s: &str) -> String {
 }
 
 fn gen_datestring(t: &mut Tape, git_window: bool) -> DateString {
+    let grammar = *t.pick(&[
+        F::Rfc2822,
+        F::GitRfc2822,
+        F::Iso8601,
+        F::Iso8601Strict,
+        F::Gitoxide,
+        F::Default,
+        F::Raw,
+        F::Unix,
+    ]);
+    // spelling variant of the custom grammars (decoded early so that short tapes still vary it)
+    let vsel = if t.chance(120) { Some(t.below(10)) } else { None };
     // instants: mostly inside the window real git can represent (1970..2099), otherwise anything in the calendar
     let (mut seconds, _) = if git_window || t.chance(170) {
         match t.weighted(&[6, 2, 2, 1]) {
@@ -344,16 +356,9 @@ fn gen_datestring(t: &mut Tape, git_window: bool) -> DateString {
         calendar_instant(t)
     };
     let mut offset = calendar_offset(t);
-    let grammar = *t.pick(&[
-        F::Rfc2822,
-        F::GitRfc2822,
-        F::Iso8601,
-        F::Iso8601Strict,
-        F::Gitoxide,
-        F::Default,
-        F::Raw,
-        F::Unix,
-    ]);
+    if grammar.is_custom() && matches!(vsel, Some(8 | 9)) {
+        offset = 0;
+    }
     let mut variant = "canonical";
     let mut raw_minus = false;
     let text = match grammar {
@@ -410,8 +415,8 @@ fn gen_datestring(t: &mut Tape, git_window: bool) -> DateString {
             let mut zone = tz(offset, grammar == F::Iso8601Strict);
             let mut lead = String::new();
             let mut trail = String::new();
-            if t.chance(110) {
-                match t.below(9) {
+            if let Some(v) = vsel {
+                match v {
                     0 => {
                         let other = (c.wd + t.range(1, 6)) % 7;
                         wd = WDAY[other].to_string();
@@ -443,24 +448,21 @@ fn gen_datestring(t: &mut Tape, git_window: bool) -> DateString {
                         variant = "outer-spacing";
                     }
                     6 => {
-                        // the other zone spelling (colon <-> no colon), or Z for UTC
-                        if offset == 0 && t.bool() {
-                            zone = "Z".into();
-                            variant = "zone-Z";
-                        } else {
-                            zone = tz(offset, grammar != F::Iso8601Strict);
-                            variant = "zone-colon-swapped";
-                        }
+                        // the other zone spelling (colon <-> no colon)
+                        zone = tz(offset, grammar != F::Iso8601Strict);
+                        variant = "zone-colon-swapped";
+                    }
+                    9 => {
+                        zone = "Z".into();
+                        variant = "zone-Z";
                     }
                     7 => {
                         comma = String::new();
                         variant = "no-comma";
                     }
                     _ => {
-                        if offset == 0 {
-                            zone = if grammar == F::Iso8601Strict { "-00:00".into() } else { "-0000".into() };
-                            variant = "zone-minus-zero";
-                        }
+                        zone = if grammar == F::Iso8601Strict { "-00:00".into() } else { "-0000".into() };
+                        variant = "zone-minus-zero";
                     }
                 }
             }
@@ -543,13 +545,15 @@ fn finish_custom(
         ),
         _ => unreachable!("custom grammars only"),
     };
+    let text = format!("{lead}{body}{trail}");
+    let canonical = text == render(grammar, seconds, offset, Sign::from(offset));
     DateString {
-        text: format!("{lead}{body}{trail}"),
+        text,
         seconds,
         offset,
         grammar,
-        canonical: variant == "canonical",
-        variant,
+        canonical,
+        variant: if canonical { "canonical" } else { variant },
         minus: offset < 0,
     }
 }
@@ -631,6 +635,7 @@ pub fn main() {
     ck.rule("roundtrip: (format, instant, offset) with instants uniform over 1970..9999, 2001..2037, boundary values (0, 2^31+-1, 2^32+-1, calendar min/max), year boundaries, end of February in leap/non-leap/century years, negative instants down to year 0001; whole-minute offsets in (-24h,+24h) (RAW: below 100h, incl. -0000; UNIX/RAW also extreme i64 seconds). Non-trivial: instant outside 2001..2037 or non-zero offset. strings/git-parse: texts in the RFC2822/GIT_RFC2822/ISO8601/ISO8601_STRICT/GITOXIDE/DEFAULT/RAW/UNIX grammars built from a known instant with spelling variants (wrong weekday, letter case, long names, spacing, zone spelling, -0000); non-trivial: gitoxide accepts (and for git-parse: git accepts, too) and offset non-zero or a non-canonical variant. Distinct by decoded (format, seconds, offset) resp. text.");
     ck.assume(&format!("{}: `GIT_AUTHOR_DATE=<s> git var GIT_AUTHOR_IDENT` exposes git's strict parse_date (seconds printed as unsigned: values >= 2^63 are read as negative)", Git::version()));
     ck.assume("custom formats are exercised for instants within the calendar library's timestamp range (0001-01-02 .. 9999-12-30T22:00:00Z) and whole-minute offsets below 24h; SHORT carries the local calendar day only (its midnight UTC must be within the same range), UNIX no offset; custom formats cannot carry the sign of a zero offset");
+    ck.assume("a zone of exactly -0001 is not put to git (git's parse_date_basic uses offset -1 as its 'no zone' marker and substitutes the local zone)");
     ck.assume("RAW offsets of 24h and more round-trip in gitoxide by design (object headers) and are ignored by git's approxidate; they are not put to git");
 
     ck.sub("roundtrip", SubCfg::new(60_000, 2_000_000).max_len(40), |t, c| {
@@ -706,6 +711,11 @@ pub fn main() {
         c.label(variant_label(&d));
         c.sample_with(|| format!("{d:?}"));
         let Some(parsed) = check_string_against_model(&d, c) else { return };
+        if d.offset == -60 {
+            // git's parser uses "-1 minute" as its internal "no zone seen" marker and then applies the local zone
+            c.label("git-tz-sentinel-minus-one-minute");
+            return;
+        }
         let scratch = infra!(c, Scratch::new("c52"), "scratch");
         let git = Git::new(&scratch.path, &scratch.path);
         let by_git = infra!(c, git_parse(&git, &d.text), "git var");
